@@ -12,6 +12,7 @@ mod c12;
 mod c13;
 mod c16;
 mod shape_corr;
+mod lists_corr;
 mod corpus;
 mod gen;
 mod sweep;
@@ -87,6 +88,7 @@ fn main() {
         "c18" => c18::run(&tier, seed, &out),
         "boundary" => boundary::main(&args[2..]),
         "c03" => c03::run(&tier, seed, &out),
+        "lists" => lists_corr::run(&tier, seed, &out),
         "probe" => probe(&out),
         // rfverif tokens <file> [keep]  : the encoded token list of a file (for the C01/C03 validators)
         "tokens" => { let src = std::fs::read_to_string(&args[2]).unwrap_or_default(); println!("{}", toks::encode_tokens(&src, args.get(3).map(|s| s == "keep").unwrap_or(false))); 0 }
